@@ -20,6 +20,8 @@ DICT = {
     "dep5": ["Format: ", "Files: ", "Copyright: ", "License: ", "Upstream-Name: ", "Comment: ", "\n\n", "\n ", " .", "*", "?", "\\", "MIT", "https://www.debian.org/doc/packaging-manuals/copyright-format/1.0/"],
     "content": ["SPDX-License-Identifier: ", "SPDX-FileCopyrightText: ", "SPDX-FileContributor: ", "SPDX-SnippetBegin", "SPDX-SnippetEnd", "SPDX-SnippetCopyrightText: ", "REUSE-IgnoreStart",
                 "REUSE-IgnoreEnd", "Copyright ", "(C) ", "© ", "MIT", " AND ", " OR ", " WITH ", "(", ")", "/*", "*/", "<!--", "-->", "#", "//", "{#", "#}", "#=", "=#", "(*", "*)", "\r\n", "\ufeff"],
+    "ignore": ["REUSE-IgnoreStart", "REUSE-IgnoreEnd", "REUSE-Ignore", "Start", "End", "SPDX-License-Identifier: ", "SPDX-FileCopyrightText: ", "SPDX-FileContributor: ", "Copyright ", "MIT", "ISC", " AND ",
+               "\n", "# ", "/* ", " */", "(", "SPDX-SnippetBegin", "SPDX-SnippetEnd"],
     "glob": ["*", "**", "**/", "/**", "\\", "\\*", "/", ".", "\x00"],
 }
 SEEDS = {
@@ -28,6 +30,8 @@ SEEDS = {
     "dep5": [b"Format: https://www.debian.org/doc/packaging-manuals/copyright-format/1.0/\nUpstream-Name: x\n\nFiles: src/* doc/a?.md\nCopyright: 2020 Jane\n 2021 Joe\nLicense: MIT\n\nFiles: *\nCopyright: X\nLicense: GPL-2.0+ with exception\n Full text\n .\n more\n"],
     "content": [b"\x00# SPDX-FileCopyrightText: 2020 Jane\n#\n# SPDX-License-Identifier: MIT OR (ISC AND 0BSD)\n\ncode\n", b"\x05/*\n * Copyright (C) 2019 X\n * SPDX-License-Identifier: MIT\n */\nint x;\n",
                 b"\x09<!--\nSPDX-FileCopyrightText: A\n-->\n# REUSE-IgnoreStart\nSPDX-License-Identifier: nope (\n# REUSE-IgnoreEnd\n# SPDX-SnippetBegin\n# SPDX-SnippetCopyrightText: B\n# SPDX-SnippetEnd\n"],
+    "ignore": [b"# SPDX-License-Identifier: MIT\n# REUSE-IgnoreStart\n# SPDX-License-Identifier: ISC\n# REUSE-IgnoreEnd\n# SPDX-FileCopyrightText: 2020 A\n",
+               b"REUSE-IgnoreEnd SPDX-License-Identifier: 0BSD\nREUSE-IgnoreStart Copyright hidden REUSE-IgnoreStart x REUSE-IgnoreEnd Copyright (C) 2001 B\n"],
     "glob": [b"src/**/*.py\x00src/a/b.py", b"a\\*b*\x00a*bc", b"**\x00x/y"],
 }
 
